@@ -3,6 +3,7 @@ from __future__ import annotations
 
 import numpy as np
 
+from black_it.loss_functions.base import BaseLoss
 from black_it.samplers.base import BaseSampler
 from black_it.samplers.surrogate import MLSurrogateSampler
 from black_it.schedulers.rl.agents.base import Agent
@@ -71,9 +72,19 @@ class StubSurrogate(MLSurrogateSampler):
             p = rng.integers(0, 4, size=n).astype(float)
         elif self.pred_mode == "huge":
             p = rng.choice([-1e300, -1.0, 0.0, 1e-300, 1e300], size=n)
+        elif self.pred_mode == "inf":
+            p = rng.choice([-np.inf, -np.inf, -1.0, 0.0, 2.5, np.inf], size=n)     # a surrogate that is "infinitely sure" about some candidates
         elif self.pred_mode == "neg":
             p = -rng.random(n)
         else:
             p = rng.normal(size=n)
         self.calls.append(["predict", np.array(X, copy=True), np.array(p, copy=True)])
         return p
+
+
+class ReadOffLoss(BaseLoss):
+    """A user-defined loss that reads the loss value off the simulated series (its mean): with the scripted model the
+    loss sequence is the script itself, sign included (log-likelihood-type losses are negative in practice)."""
+
+    def compute_loss_1d(self, sim_data_ensemble, real_data):
+        return float(np.mean(sim_data_ensemble))
